@@ -58,6 +58,12 @@ inductive Err where
   | panic     -- nil dereference in reflect.TypeOf(nil).Kind()
 deriving DecidableEq, Repr
 
+instance {ε α : Type} [DecidableEq ε] [DecidableEq α] : DecidableEq (Except ε α)
+  | .ok a, .ok b => if h : a = b then isTrue (by rw [h]) else isFalse (by intro e; cases e; exact h rfl)
+  | .error a, .error b => if h : a = b then isTrue (by rw [h]) else isFalse (by intro e; cases e; exact h rfl)
+  | .ok _, .error _ => isFalse (by intro e; cases e)
+  | .error _, .ok _ => isFalse (by intro e; cases e)
+
 inductive MergeFn where
   /-- `a.F += b.F` for `F ∈ sums`; for `M ∈ mapSums`: `for k,v := range b.M { a.M[k] (+)= v }`. `T` is the struct. -/
   | fields (sums : List String) (mapSums : List String)
